@@ -11,7 +11,7 @@ def _ops_str(ops):
 
 class C13(Prop):
     id = 'C13'
-    lean_modules = ['RSocketModel.Props.C13', 'RSocketModel.Props.C13Endpoints']
+    lean_modules = ['RSocketModel.Props.C13', 'RSocketModel.Props.C13Endpoints', 'RSocketModel.Props.C13Source']
     technique = 'Lean 4 proof (induction over allocate/register/finish histories, parametric id width) + differential correspondence with StreamControl'
     level_text = ('c13_registered_during_sweep_stays_reserved (stop_all_streams with owners that open a new stream at once: every stream registered during the walk is still reserved afterwards, for every table, allocator position and set of retrying owners), c13_request_on_active_id_rejected (engine model: for every state, stream-opening frame type and handler behaviour, a request on an id that is still active yields exactly one ERROR[REJECTED] and changes nothing), Theorems c13_alloc_sound, c13_fails_iff_full, c13_history (all id widths k>=1, all active sets, all histories) are kernel-checked on a model '
                   'of StreamControl; the model is tied to the code by the regenerated constant (2^31-1) and by running the real StreamControl and the compiled '
